@@ -641,10 +641,26 @@ def run(ctx):
                         break
         os.remove(pin)
         os.remove(pout)
-    real_writers_rp66_lis(ctx, rng, traces, parsed_l, ok_l, meta)
-    svg_plots(ctx, rng, traces, parsed_l, ok_l, meta)
-    nodoc_l = [False] * len(traces)
-    repo_tests_as_traces(ctx, traces, parsed_l, ok_l, meta, nodoc_l)
+    from .. import dicttree
+    with dicttree.Recorder() as dtrec:          # the index tables the writers lay out (DictTreeHtmlTable events), judged below
+        real_writers_rp66_lis(ctx, rng, traces, parsed_l, ok_l, meta)
+        svg_plots(ctx, rng, traces, parsed_l, ok_l, meta)
+        nodoc_l = [False] * len(traces)
+        repo_tests_as_traces(ctx, traces, parsed_l, ok_l, meta, nodoc_l)
+    # DictTree.tla / DictTreeTable.tla: growth beyond the listed properties (the key tree behind the HTML index pages).  Recorded in
+    # the evidence; a mismatch is reported on stderr and is not a verdict on C18 (a wrongly spanned table is still well-formed XML).
+    dt_mismatches = []
+    dt_info = dicttree.run(ctx, dt_mismatches)
+    dt_info['tables_laid_out_by_the_library'] = len(dtrec.streams)
+    for evs in dtrec.streams:
+        bad = dicttree.tiles_exactly(evs)
+        if bad:
+            dt_mismatches.append('a table laid out by the library does not tile: %s; events %r' % (bad, evs[:12]))
+    dt_info['mismatches'] = dt_mismatches[:10]
+    dt_info['mismatch_count'] = len(dt_mismatches)
+    ctx.notes['dict_tree'] = dt_info
+    for m_ in dt_mismatches[:5]:
+        print('EXTRA-MISMATCH (DictTree, no listed property): ' + m_[:400], file=__import__('sys').stderr)
     if traces:
         ctx.sample(dict(kind='real writer call stream', meta=meta[0], events=traces[0][:12]))
         rej = ctx.validate_traces('XmlStreamTrace', 'XmlStreamTrace', traces, payload_extra=dict(parsed=parsed_l, ok=ok_l, nodoc=nodoc_l),
